@@ -125,19 +125,19 @@ const RVS_N: &[(&str, &str)] = &[
 ];
 
 fn scn_n_calls() -> Scenario {
-    Scenario { name: "N-multiplexed-calls", engine: "N", run: nwire::run_calls, quick: 8_000, thorough: 200_000, grid: 0, what: "real Server + 1..3 Channels over simnet (fragmentation, stalls, back-pressure, randomised h2 windows/frame size): 1..8 concurrent calls over 3 services and 4 shapes multiplexed on the connections, scripted handlers with virtual latencies/gaps; identity-channel oracle per tagged call" }
+    Scenario { name: "N-multiplexed-calls", engine: "N", run: nwire::run_calls, quick: 40_000, thorough: 2_000_000, grid: 0, what: "real Server + 1..3 Channels over simnet (fragmentation, stalls, back-pressure, randomised h2 windows/frame size): 1..8 concurrent calls over 3 services and 4 shapes multiplexed on the connections, scripted handlers with virtual latencies/gaps; identity-channel oracle per tagged call" }
 }
 fn scn_n_calls_kill() -> Scenario {
-    Scenario { name: "N-calls-connection-kill", engine: "N", run: nwire::run_calls_kill, quick: 4_000, thorough: 100_000, grid: 0, what: "fault-injecting configuration: the connection dies at a drawn byte offset while 1..5 calls are in flight; relaxed oracle (never success with wrong/missing data, items a prefix, clean end only after true OK, no hang)" }
+    Scenario { name: "N-calls-connection-kill", engine: "N", run: nwire::run_calls_kill, quick: 20_000, thorough: 1_000_000, grid: 0, what: "fault-injecting configuration: the connection dies at a drawn byte offset while 1..5 calls are in flight; relaxed oracle (never success with wrong/missing data, items a prefix, clean end only after true OK, no hang)" }
 }
 fn scn_n_client_view() -> Scenario {
-    Scenario { name: "N-wire-client-view", engine: "N", run: nwire::run_client_view, quick: 4_000, thorough: 100_000, grid: 0, what: "tonic Channel + generated client -> raw h2 server (h2 crate only): method, :path, :scheme, content-type, te, metadata and body exactly as the wire carries them" }
+    Scenario { name: "N-wire-client-view", engine: "N", run: nwire::run_client_view, quick: 20_000, thorough: 1_000_000, grid: 0, what: "tonic Channel + generated client -> raw h2 server (h2 crate only): method, :path, :scheme, content-type, te, metadata and body exactly as the wire carries them" }
 }
 fn scn_n_server_view() -> Scenario {
-    Scenario { name: "N-wire-server-view", engine: "N", run: nwire::run_server_view, quick: 4_000, thorough: 100_000, grid: 0, what: "raw h2 client (padded/unpadded -bin metadata) -> tonic Server with scripted handler: HTTP status, headers, DATA, trailers, END_STREAM placement and status fields exactly as the wire carries them" }
+    Scenario { name: "N-wire-server-view", engine: "N", run: nwire::run_server_view, quick: 20_000, thorough: 1_000_000, grid: 0, what: "raw h2 client (padded/unpadded -bin metadata) -> tonic Server with scripted handler: HTTP status, headers, DATA, trailers, END_STREAM placement and status fields exactly as the wire carries them" }
 }
 fn scn_n_hostile_server() -> Scenario {
-    Scenario { name: "N-hostile-h2-server", engine: "N", run: nwire::run_hostile_server, quick: 3_000, thorough: 80_000, grid: 16, what: "raw h2 server answers a tonic Channel with real RST_STREAM(reason) before headers / after headers / mid-body (reasons 0..=15 enumerated first) or with an HTTP status and no grpc-status; mapping through the real hyper::Error path" }
+    Scenario { name: "N-hostile-h2-server", engine: "N", run: nwire::run_hostile_server, quick: 15_000, thorough: 800_000, grid: 16, what: "raw h2 server answers a tonic Channel with real RST_STREAM(reason) before headers / after headers / mid-body (reasons 0..=15 enumerated first) or with an HTTP status and no grpc-status; mapping through the real hyper::Error path" }
 }
 
 fn props() -> Vec<Property> {
@@ -163,19 +163,20 @@ fn props() -> Vec<Property> {
     Property {
         id: "C03",
         title: "Requests and responses on the wire are spec-conformant gRPC",
-        scenarios: vec![scn_c01(), scn_c06_enc(), scn_c02_f(), scn_n_client_view(), scn_n_server_view()],
+        scenarios: vec![scn_c01(), scn_c06_enc(), scn_c02_f(), scn_n_client_view(), scn_n_server_view(), Scenario { name: "F-origin-path", engine: "F", run: c03::run_origin, quick: 4_000, thorough: 150_000, grid: 0, what: "generated client built with_origin (with/without a path prefix, trailing slashes) in front of a foreign peer: :path keeps the prefix and ends in /package.Service/Method, POST, te, content-type, all four shapes" }],
         rule: "passive wire monitor on the C01/C06 (and loopback) runs: every emitted body is parsed by the independent decoder; non-trivial/distinct as in the host scenario",
         real_vs_stub: RVS_F.to_vec(),
         assumptions: vec!["'nothing after the trailers block' is judged the way hyper's HTTP/2 sender consumes a body (stops after trailers / error / None / end-stream flag)"],
-        required_probes: vec!["encoder-emitted-several-data-frames", "client-wire-view", "server-wire-view"],
+        required_probes: vec!["encoder-emitted-several-data-frames", "client-wire-view", "server-wire-view", "origin-with-path-prefix"],
     },
     Property {
         id: "C04",
         title: "Status survives the header encoding; reading any headers is total",
         scenarios: vec![
-            Scenario { name: "F-hostile-status", engine: "F", run: c04::run_headers, quick: 60_000, thorough: 1_500_000, grid: 0, what: "scripted server peer answers a generated client with arbitrary grpc-status / grpc-message / grpc-status-details-bin (valid, out of range, garbage, invalid percent-encoding, invalid UTF-8, invalid base64) in trailers or trailers-only headers, any chunking" },
-            Scenario { name: "F-http-status", engine: "F", run: c04::run_http_status, quick: 4_000, thorough: 100_000, grid: 500, what: "HTTP status 100..=599 (enumerated completely first) with no grpc-status, with/without body and trailers" },
-            Scenario { name: "F-reset", engine: "F", run: c04::run_reset, quick: 4_000, thorough: 100_000, grid: 16, what: "stream reset surfaced as an h2::Error body error, reasons 0..=15 enumerated first, before/after/inside messages" },
+            Scenario { name: "F-hostile-status", engine: "F", run: c04::run_headers, quick: 60_000, thorough: 4_500_000, grid: 0, what: "scripted server peer answers a generated client with arbitrary grpc-status / grpc-message / grpc-status-details-bin (valid, out of range, garbage, invalid percent-encoding, invalid UTF-8, invalid base64) in trailers or trailers-only headers, any chunking" },
+            Scenario { name: "F-http-status", engine: "F", run: c04::run_http_status, quick: 4_000, thorough: 300_000, grid: 500, what: "HTTP status 100..=599 (enumerated completely first) with no grpc-status, with/without body and trailers" },
+            Scenario { name: "F-status-code-bytes", engine: "F", run: c04::run_code_bytes, quick: 6_000, thorough: 360_000, grid: c04::CODE_GRID, what: "every 1-byte grpc-status value and every 2-byte value containing a digit (all legal header bytes), enumerated: only the canonical decimal codes may be read as a code" },
+            Scenario { name: "F-reset", engine: "F", run: c04::run_reset, quick: 4_000, thorough: 300_000, grid: 16, what: "stream reset surfaced as an h2::Error body error, reasons 0..=15 enumerated first, before/after/inside messages" },
             scn_c02_f(),
             scn_n_hostile_server(),
             scn_n_server_view(),
@@ -196,8 +197,8 @@ fn props() -> Vec<Property> {
             scn_c02_f(),
             scn_n_client_view(),
             scn_n_server_view(),
-            Scenario { name: "F-foreign-to-server", engine: "F", run: c08::run_to_server, quick: 40_000, thorough: 800_000, grid: 0, what: "foreign client peer sends padded/unpadded base64 -bin values and repeated keys; the handler reads them through the typed accessors" },
-            Scenario { name: "F-foreign-to-client", engine: "F", run: c08::run_to_client, quick: 40_000, thorough: 800_000, grid: 0, what: "foreign server peer sends metadata in response headers, trailers and error statuses (padded/unpadded); the caller reads them through the typed accessors" },
+            Scenario { name: "F-foreign-to-server", engine: "F", run: c08::run_to_server, quick: 40_000, thorough: 2_400_000, grid: 0, what: "foreign client peer sends padded/unpadded base64 -bin values and repeated keys; the handler reads them through the typed accessors" },
+            Scenario { name: "F-foreign-to-client", engine: "F", run: c08::run_to_client, quick: 40_000, thorough: 2_400_000, grid: 0, what: "foreign server peer sends metadata in response headers, trailers and error statuses (padded/unpadded); the caller reads them through the typed accessors" },
         ],
         rule: "one run = metadata maps (ASCII/binary, repeated keys, reserved-name canaries, byte strings of every length mod 3) on requests, responses, trailers and error statuses crossing tonic<->tonic or tonic<->foreign peer; non-trivial = at least one metadata entry or error status; distinct = distinct hash of structural tape decisions",
         real_vs_stub: RVS_F.to_vec(),
@@ -208,9 +209,9 @@ fn props() -> Vec<Property> {
         id: "C05",
         title: "Compression is used only as negotiated and configured",
         scenarios: vec![
-            Scenario { name: "F-negotiation-grid", engine: "F", run: c05::run_grid, quick: 12_000, thorough: 400_000, grid: c05::GRID, what: "tonic client <-> tonic server over the loopback: all 8192 (server accept, server send, client send, client accept, call shape) configurations enumerated first (enable order drawn), then random cells; all four call shapes; per-response opt-out" },
-            Scenario { name: "F-hostile-request", engine: "F", run: c05::run_hostile_request, quick: 30_000, thorough: 600_000, grid: 0, what: "foreign client peer -> tonic server: arbitrary grpc-accept-encoding lists (spacing, unknown tokens, duplicates, case, non-ASCII), arbitrary grpc-encoding values, flag 0/1 frames" },
-            Scenario { name: "F-hostile-response", engine: "F", run: c05::run_hostile_response, quick: 20_000, thorough: 400_000, grid: 0, what: "foreign server peer -> tonic client: arbitrary grpc-encoding on the response, flag 0/1 frames" },
+            Scenario { name: "F-negotiation-grid", engine: "F", run: c05::run_grid, quick: 12_000, thorough: 1_200_000, grid: c05::GRID, what: "tonic client <-> tonic server over the loopback: all 8192 (server accept, server send, client send, client accept, call shape) configurations enumerated first (enable order drawn), then random cells; all four call shapes; per-response opt-out" },
+            Scenario { name: "F-hostile-request", engine: "F", run: c05::run_hostile_request, quick: 30_000, thorough: 1_800_000, grid: 0, what: "foreign client peer -> tonic server: arbitrary grpc-accept-encoding lists (spacing, unknown tokens, duplicates, case, non-ASCII), arbitrary grpc-encoding values, flag 0/1 frames" },
+            Scenario { name: "F-hostile-response", engine: "F", run: c05::run_hostile_response, quick: 20_000, thorough: 1_200_000, grid: 0, what: "foreign server peer -> tonic client: arbitrary grpc-encoding on the response, flag 0/1 frames" },
         ],
         rule: "one run = one call under one (server accept/send, client send/accept) configuration or one hostile header combination x chunking x readiness; every run is non-trivial; distinct = distinct hash of structural tape decisions; the first 8192 grid runs enumerate configuration x call shape completely",
         real_vs_stub: RVS_F.to_vec(),
@@ -220,7 +221,7 @@ fn props() -> Vec<Property> {
     Property {
         id: "C06",
         title: "Message size limits are enforced exactly and without collateral loss",
-        scenarios: vec![scn_c06_dec(), scn_c06_enc(), scn_c06_4g(), Scenario { name: "F-limit-plumbing", engine: "F", run: c06::run_plumbing, quick: 60_000, thorough: 1_200_000, grid: 0, what: "limits through the generated client/server plumbing over the loopback: independent (asymmetric) decoding/encoding limits on both sides, all four call shapes, message sizes around the limits; reference predicts where the first refusal happens" }],
+        scenarios: vec![scn_c06_dec(), scn_c06_enc(), scn_c06_4g(), Scenario { name: "F-limit-plumbing", engine: "F", run: c06::run_plumbing, quick: 60_000, thorough: 3_600_000, grid: 0, what: "limits through the generated client/server plumbing over the loopback: independent (asymmetric) decoding/encoding limits on both sides, all four call shapes, message sizes around the limits; reference predicts where the first refusal happens" }],
         rule: "one run = a stream of small messages with one probe message whose wire length sits at limit-1/limit/limit+1 (or a declared length with no payload) x chunking x readiness x role/direction; every run is non-trivial; distinct = distinct hash of all structural tape decisions",
         real_vs_stub: RVS_F.to_vec(),
         assumptions: vec![
@@ -233,9 +234,10 @@ fn props() -> Vec<Property> {
         id: "C09",
         title: "Deadlines: faithful grpc-timeout encoding and shortest-deadline enforcement",
         scenarios: vec![
-            Scenario { name: "N-deadline", engine: "N", run: c09::run_deadline, quick: 12_000, thorough: 300_000, grid: 0, what: "real tonic Server (Server::timeout) + Channel (Endpoint::timeout) + Request::set_timeout over simnet on the paused clock; handler latency on a grid around D = min of the configured deadlines (D-50ms .. D+-us .. D+5s, never)" },
-            Scenario { name: "F-timeout-header", engine: "F", run: c09::run_header, quick: 60_000, thorough: 1_000_000, grid: 0, what: "what a foreign server peer receives as grpc-timeout for Request::set_timeout(d), durations biased to the unit-switch boundaries up to 99999999 hours" },
-            Scenario { name: "F-timeout-parse", engine: "F", run: c09::run_parse, quick: 40_000, thorough: 800_000, grid: c09::PARSE_GRID, what: "the server's grpc-timeout parser through hook H2: every unit x 1..8 digits x {all zeros, all nines, leading zeros, random} enumerated first, then malformed strings (9+ digits, no digits, no unit, wrong unit, signs, spaces, non-ASCII, random bytes)" },
+            Scenario { name: "N-deadline", engine: "N", run: c09::run_deadline, quick: 60_000, thorough: 3_000_000, grid: 0, what: "real tonic Server (Server::timeout) + Channel (Endpoint::timeout) + Request::set_timeout over simnet on the paused clock; handler latency on a grid around D = min of the configured deadlines (D-50ms .. D+-us .. D+5s, never)" },
+            Scenario { name: "N-deadline-silent-peer", engine: "N", run: c09::run_deadline_silent_peer, quick: 15_000, thorough: 600_000, grid: 0, what: "tonic Channel with Request::set_timeout (with, without, shorter or longer Endpoint::timeout; lazy/eager; unary/streaming) against a raw h2 server that reads the request and never answers: the caller's own deadline must cut the call off locally" },
+            Scenario { name: "F-timeout-header", engine: "F", run: c09::run_header, quick: 60_000, thorough: 3_000_000, grid: 0, what: "what a foreign server peer receives as grpc-timeout for Request::set_timeout(d), durations biased to the unit-switch boundaries up to 99999999 hours" },
+            Scenario { name: "F-timeout-parse", engine: "F", run: c09::run_parse, quick: 40_000, thorough: 2_400_000, grid: c09::PARSE_GRID, what: "the server's grpc-timeout parser through hook H2: every unit x 1..8 digits x {all zeros, all nines, leading zeros, random} enumerated first, then malformed strings (9+ digits, no digits, no unit, wrong unit, signs, spaces, non-ASCII, random bytes)" },
         ],
         rule: "one run = one (caller timeout, server timeout, endpoint timeout, handler latency) tuple in virtual time, or one duration / header string; non-trivial = every run; distinct = distinct hash of structural tape decisions",
         real_vs_stub: RVS_N.to_vec(),
@@ -243,12 +245,12 @@ fn props() -> Vec<Property> {
             "guard band g = 2 ms around the deadline (tokio's timer wheel rounds up to 1 ms; the handler is polled before the sleep); the simulated network adds no virtual delay in this scenario",
             "the grammar clauses (encoding, parsing) are pure functions of their input: sampled structurally through a foreign peer / hook H2, not decided",
         ],
-        required_probes: vec!["malformed-header-with-configured-timeout", "finishes-before-deadline", "cut-off-at-deadline", "inside-guard-band", "unit-coarser-than-ns", "parse-conformant", "parse-malformed"],
+        required_probes: vec!["deadline-against-silent-peer", "malformed-header-with-configured-timeout", "finishes-before-deadline", "cut-off-at-deadline", "inside-guard-band", "unit-coarser-than-ns", "parse-conformant", "parse-malformed"],
     },
     Property {
         id: "C13",
         title: "Graceful shutdown loses no accepted call",
-        scenarios: vec![Scenario { name: "N-graceful-shutdown", engine: "N", run: c13::run, quick: 6_000, thorough: 150_000, grid: 0, what: "real serve_with_incoming_shutdown with 0..3 connections and 1..6 unary/streaming/bidi calls (virtual latencies and gaps); the signal fires at a drawn virtual instant or right after the k-th handler entry; a further connection is offered strictly after the signal; clients keep or drop their channels" }],
+        scenarios: vec![Scenario { name: "N-graceful-shutdown", engine: "N", run: c13::run, quick: 30_000, thorough: 1_500_000, grid: 0, what: "real serve_with_incoming_shutdown with 0..3 connections and 1..6 unary/streaming/bidi calls (virtual latencies and gaps); the signal fires at a drawn virtual instant or right after the k-th handler entry; a further connection is offered strictly after the signal; clients keep or drop their channels" }],
         rule: "one run = one placement of the signal relative to the phases of the calls x connections x network fragmentation/stalls; every run non-trivial; distinct = distinct hash of structural tape decisions and ordered network-event kinds",
         real_vs_stub: RVS_N.to_vec(),
         assumptions: vec![
@@ -261,8 +263,8 @@ fn props() -> Vec<Property> {
         id: "C14",
         title: "A channel always answers and recovers when the peer comes back",
         scenarios: vec![
-            Scenario { name: "N-connect-scripts", engine: "N", run: c14::run_script, quick: 6_000, thorough: 150_000, grid: c14::GRID, what: "fault scripts over {next connect fails, next connect succeeds, established connection dropped by the peer} x {lazy, eager}: all 726 scripts of length <= 5 enumerated first, then random scripts up to length 14; a call (sometimes two back-to-back) at every quiescent point; real Channel (Buffer, Reconnect, hyper/h2 client) and Server" },
-            Scenario { name: "N-midcall-death", engine: "N", run: c14::run_midcall, quick: 4_000, thorough: 100_000, grid: 0, what: "relaxed configuration: the first connection dies at a drawn byte offset (inside the HTTP/2 handshake, inside the request, inside the response) during a unary or server-streaming call; then calls at quiescent points must recover" },
+            Scenario { name: "N-connect-scripts", engine: "N", run: c14::run_script, quick: 30_000, thorough: 1_500_000, grid: c14::GRID, what: "fault scripts over {next connect fails, next connect succeeds, established connection dropped by the peer} x {lazy, eager}: all 726 scripts of length <= 5 enumerated first, then random scripts up to length 14; a call (sometimes two back-to-back) at every quiescent point; real Channel (Buffer, Reconnect, hyper/h2 client) and Server" },
+            Scenario { name: "N-midcall-death", engine: "N", run: c14::run_midcall, quick: 20_000, thorough: 1_000_000, grid: 0, what: "relaxed configuration: the first connection dies at a drawn byte offset (inside the HTTP/2 handshake, inside the request, inside the response) during a unary or server-streaming call; then calls at quiescent points must recover" },
         ],
         rule: "one run = one fault script (or one kill offset) x lazy/eager x network fragmentation; every run non-trivial; distinct = distinct hash of structural tape decisions and of the ordered network-event kinds; the first 726 runs enumerate all scripts of length <= 5",
         real_vs_stub: RVS_N.to_vec(),
@@ -275,7 +277,7 @@ fn props() -> Vec<Property> {
     Property {
         id: "C16",
         title: "grpc-web server layer translates requests and responses losslessly",
-        scenarios: vec![Scenario { name: "F-web-server-layer", engine: "F", run: c16::run, quick: 150_000, thorough: 3_000_000, grid: 0, what: "GrpcWebLayer around a scripted inner service: binary/base64-text request bodies cut anywhere (inside a base64 quantum, 1-byte chunks), inner gRPC responses cut anywhere with arbitrary trailers or trailers-only, Accept binary/text/absent/other, and the (method, version, content-type) status-code cases" }],
+        scenarios: vec![Scenario { name: "F-web-server-layer", engine: "F", run: c16::run, quick: 150_000, thorough: 9_000_000, grid: 0, what: "GrpcWebLayer around a scripted inner service: binary/base64-text request bodies cut anywhere (inside a base64 quantum, 1-byte chunks), inner gRPC responses cut anywhere with arbitrary trailers or trailers-only, Accept binary/text/absent/other, and the (method, version, content-type) status-code cases" }],
         rule: "one run = one outer request (kind, method, version, content-type, accept, payload) x chunking of the request body x inner response (frames, chunking, trailers) x readiness; every run non-trivial; distinct = distinct hash of structural tape decisions",
         real_vs_stub: vec![("tonic-web GrpcWebLayer/GrpcWebService/GrpcWebCall", "real"), ("inner gRPC service", "scripted stub (records request, answers scripted frames)"), ("outer HTTP server / hyper", "not run: the layer is called directly as a tower::Service"), ("executor", "simulator-owned"), ("bodies", "SimBody seams")],
         assumptions: vec!["grpc-web-text responses are decoded as a concatenation of individually padded base64 segments (as browsers' grpc-web clients do)"],
@@ -284,7 +286,7 @@ fn props() -> Vec<Property> {
     Property {
         id: "C17",
         title: "grpc-web client layer recovers messages and full trailers under any chunking",
-        scenarios: vec![Scenario { name: "F-web-client-layer", engine: "F", run: c17::run, quick: 200_000, thorough: 4_000_000, grid: 0, what: "GrpcWebClientService in front of a scripted grpc-web server: message frames + trailers frame in any chunking (inside frame headers, inside the trailers frame, message and trailers in one chunk, 1-byte chunks), truncated at any byte, malformed variants" }],
+        scenarios: vec![Scenario { name: "F-web-client-layer", engine: "F", run: c17::run, quick: 200_000, thorough: 12_000_000, grid: 0, what: "GrpcWebClientService in front of a scripted grpc-web server: message frames + trailers frame in any chunking (inside frame headers, inside the trailers frame, message and trailers in one chunk, 1-byte chunks), truncated at any byte, malformed variants" }],
         rule: "one run = one grpc-web response body (0..6 messages + trailers frame with values containing ':' and spaces, repeated names) x chunking x optional truncation/malformation x readiness; every run non-trivial; distinct = distinct hash of structural tape decisions",
         real_vs_stub: vec![("tonic-web GrpcWebClientService / GrpcWebCall (client decode and encode paths)", "real"), ("grpc-web server", "scripted stub with an independent grpc-web encoder"), ("tonic client::Grpc above the layer", "not run here: the translated body is consumed poll by poll"), ("executor", "simulator-owned"), ("bodies", "SimBody seams")],
         assumptions: vec!["a cut exactly at a frame boundary (trailers frame missing altogether) is not judged: the property speaks of cuts inside a frame"],
@@ -293,7 +295,7 @@ fn props() -> Vec<Property> {
     Property {
         id: "C18",
         title: "Health service reports the latest status to Check and Watch",
-        scenarios: vec![Scenario { name: "F-health-histories", engine: "F", run: c18::run, quick: 40_000, thorough: 1_000_000, grid: 0, what: "histories of set/clear/check/watch/next over services {\"\",a,b} (<=12, sometimes <=30 operations) issued as tasks on the simulator's executor through the generated HealthClient -> HealthServer in-process; blocked watchers stay pending while later operations run; final drain of every watcher" }],
+        scenarios: vec![Scenario { name: "F-health-histories", engine: "F", run: c18::run, quick: 40_000, thorough: 3_000_000, grid: 0, what: "histories of set/clear/check/watch/next over services {\"\",a,b} (<=12, sometimes <=30 operations) issued as tasks on the simulator's executor through the generated HealthClient -> HealthServer in-process; blocked watchers stay pending while later operations run; final drain of every watcher" }],
         rule: "one run = one operation history x scheduler choices (which runnable task is polled next, how many steps between operations); every run non-trivial; distinct = distinct hash of structural tape decisions",
         real_vs_stub: vec![("tonic-health HealthReporter/HealthService/WatchStream, generated HealthClient/HealthServer, tonic codec", "real"), ("tokio::sync::{RwLock, watch}", "real (trusted base)"), ("executor", "simulator-owned cooperative executor (engine F); preemptive thread schedules are engine M (Miri), thorough tier"), ("transport", "in-process call, no HTTP/2")],
         assumptions: vec!["'first reports the status current at subscription' is read as: the status current at some instant between subscription and the first read (the reference tokio watch semantics)", "cooperative interleavings only in engine F: tasks interleave at await points"],
@@ -323,5 +325,9 @@ fn props() -> Vec<Property> {
 }
 
 fn main() {
+    // debugging aid only: TSIM_LOG=trace prints tonic/hyper/h2 tracing output (never set by ./check)
+    if let Ok(f) = std::env::var("TSIM_LOG") {
+        let _ = tracing_subscriber::fmt().with_env_filter(f).without_time().with_writer(std::io::stdout).try_init();
+    }
     simcore::main_with(props());
 }
